@@ -99,7 +99,10 @@ def build(cfg, src):
         e = T.ext(0xff01, b"\x00")
         exts_sh = T.cat(e, exts_sh) if exts_sh else e
     omit = version in ("SSL30", "TLS10") and not exts_sh and cfg.get("omit_ext_block", True)
-    sh = T.server_hello(version, sr, sid, cfg["suite"], exts_sh, omit_ext_block=omit)
+    sh_suite = cfg["suite"]
+    if cfg.get("server_hello_suite_override"):
+        sh_suite = src.bytes("server_hello_suite", 2)       # a code point chosen by the harness (e.g. outside TLExport's table)
+    sh = T.server_hello(version, sr, sid, sh_suite, exts_sh, omit_ext_block=omit)
 
     def plain_rec(from_server, ctype, frag):
         return T.cat(T.u8(ctype), conn.vbytes, T.u16(len(frag)), frag)
@@ -193,5 +196,5 @@ def build(cfg, src):
         pad = cfg.get("pad", 0) if version == "TLS13" else 0
         xb = cfg.get("extra_pad_blocks", 0)
         items.append(Item(from_server, conn.record(from_server, 0x17, pt, pad=pad, extra_pad_blocks=xb), app=pt, kind="app"))
-    meta = {"conn": conn, "cr": cr, "sr": sr, "sp": sp}
+    meta = {"conn": conn, "cr": cr, "sr": sr, "sp": sp, "sh_suite": sh_suite}
     return items, keylog, meta
